@@ -23,6 +23,9 @@ type Operand struct {
 	// Fixed: value is structural (shape/axes/indices operand); rebinding it as a caller input is
 	// allowed but its value must stay the same across input sets.
 	Fixed bool
+	// NoShape: when bound as a graph input, the input is declared with an element type but without a shape
+	// (rank-polymorphic graphs); the input sets then differ in rank.
+	NoShape bool
 }
 
 // OpCase is one operator application.
@@ -219,6 +222,25 @@ func Templates() []Template {
 				oc.Attrs = []mb.Attr{mb.AI("axis", int64(pick(rw, -1, 1)))}
 			}
 			return oc
+		}})
+	}
+	for _, op := range []string{"Abs", "Relu", "Sigmoid", "Tanh", "Softmax", "Cast", "Shape", "Not"} {
+		op := op
+		ts = append(ts, Template{Name: "rank-polymorphic/" + op, Sensitive: true, Gen: func(rw, rd *rng.R, b int) OpCase {
+			// the same graph is run on inputs of different rank: the input is declared without a shape
+			shape := pick(rd, []int{b, 3}, []int{b, 2, 3}, []int{5}, []int{2, 2, 2, 2}, []int{b, 1})
+			var x *val.V
+			var attrs []mb.Attr
+			switch op {
+			case "Not":
+				x = RandBool(rd, shape)
+			case "Cast":
+				x = RandF32(rd, shape, -2, 2)
+				attrs = []mb.Attr{mb.AI("to", int64(val.Int32))}
+			default:
+				x = RandF32(rd, shape, -2, 2)
+			}
+			return OpCase{Op: op, Attrs: attrs, Operands: []Operand{{V: x, BatchAxis: -1, NoShape: true}}, Outs: []string{"y"}}
 		}})
 	}
 	ts = append(ts, Template{Name: "unary/Not", Gen: func(rw, rd *rng.R, b int) OpCase {
